@@ -4,6 +4,8 @@ import Req.H2.Meta
 import Req.H3.Varint
 import Req.H3.Frame
 import Req.H3.Fields
+import Req.H2.FieldsX
+import Req.Driver.WireUtil
 /-! Driver lanes of C05 (HTTP/2 framer, QUIC varints, HTTP/3 frames/SETTINGS/field sections). -/
 namespace Req.Driver.L.C05
 open Req.Proto
@@ -358,7 +360,79 @@ def laneH3Fields : List String → String
   | _ => "bad-op"
 end h3fields
 
+/-! ### emitted request field sections (`encodeHeaders` of both writers) -/
+section emit
+open Req.H2
+
+def encodeFieldsE (l : List (Bytes × Bytes)) : String :=
+  if l.isEmpty then "-" else ",".intercalate (l.map fun f => encodeHex f.1 ++ ":" ++ encodeHex f.2)
+
+def showFErrE : FErr → String
+  | .nonAsciiHost => "err:outside"
+  | .invalidHost => "err:host"
+  | .invalidPath => "err:path"
+  | .invalidHeader => "err:header"
+  | .headerListTooLarge => "err:toolarge"
+
+/-- Canonical form of a field list whose regular part depends on Go's map iteration order:
+`<pseudo fields in wire order> <regular fields, sorted> <canonical names of the LISTED regular
+fields in wire order> <shape: p/r per field in wire order> <requestSectionOK>`.
+The regular fields are sorted STABLY by name alone when no two keys of the header map share a
+lower-case form (then the wire order of the values of one name is determined and is compared),
+and by (name, value) otherwise. -/
+def showEmitted (hdr : List Req.HeaderSort.KV) (fs : List (Bytes × Bytes)) : String :=
+  let pseudo := fs.filter fun f => isPseudoNameB f.1
+  let regular := fs.filter fun f => !isPseudoNameB f.1
+  let lks := hdr.map fun kv => Req.Ascii.lower kv.key
+  let collide := lks.eraseDups.length != lks.length
+  let sorted :=
+    if collide then regular.mergeSort fun a b =>
+      if a.1 == b.1 then Req.BStr.le a.2 b.2 else Req.BStr.le a.1 b.1
+    else regular.mergeSort fun a b => Req.BStr.le a.1 b.1
+  let order := Req.H1.orderList hdr
+  let listed := regular.filterMap fun f =>
+    if (Req.HeaderSort.lastIndex order f.1).isSome
+    then some (Req.Ascii.canonicalMIMEHeaderKey f.1) else none
+  let shape := String.ofList (fs.map fun f => if isPseudoNameB f.1 then 'p' else 'r')
+  sp ["ok", encodeFieldsE pseudo, encodeFieldsE sorted, encodeList listed,
+      (if shape.isEmpty then "-" else shape), b01 (requestSectionOK fs)]
+
+/-- `c05emit <h2|h3> <method> <rawurl> <host> <hdr> <cl> <hasBody> <noBody> <gzip>
+<maxHeaderListSize|-> <proto> <trailers>` -/
+def laneEmit : List String → String
+  | [fl, m, raw, host, hdr, cl, hb, nb, gz, lim, proto, trailers] =>
+    let fl? : Option Flavor :=
+      if fl == "h2" then some .h2 else if fl == "h3" then some .h3 else none
+    let lim? : Option (Option Nat) := if lim == "-" then some none else lim.toNat?.map some
+    match fl?, decodeHex m, decodeHex raw, decodeHex host, Req.Driver.Wire.decodeHdr hdr, decodeInt cl,
+          bool? hb, bool? nb, bool? gz, lim?, decodeHex proto, decodeHex trailers with
+    | some fl, some m, some raw, some host, some hdr, some cl, some hb, some nb, some gz, some lim,
+      some proto, some trailers =>
+      match Req.Url.parse raw with
+      | .error _ => "bad-op"
+      | .ok u =>
+        let x : XReq := { base := { method := m, url := u, host := host, header := hdr,
+                                    contentLength := cl, hasBody := hb, noBody := nb, addGzip := gz,
+                                    maxHeaderList := lim },
+                          proto := proto, trailers := trailers }
+        match fieldsX fl x with
+        | .error e => showFErrE e
+        | .ok fs => showEmitted hdr fs
+    | _, _, _, _, _, _, _, _, _, _, _, _ => "bad-op"
+  | _ => "bad-op"
+
+/-- `c05reqsec <names> <values>`: the decidable request-section check on a DECODED list. -/
+def laneReqSec : List String → String
+  | [ns, vs] => match decodeList ns, decodeList vs with
+    | some ns, some vs =>
+      if ns.length != vs.length then "bad-op" else b01 (requestSectionOK (ns.zip vs))
+    | _, _ => "bad-op"
+  | _ => "bad-op"
+end emit
+
 def lanes : List (String × (List String → String)) := [
+  ("c05emit", laneEmit),
+  ("c05reqsec", laneReqSec),
   ("c05vappend", laneVAppend),
   ("c05vlen", laneVLen),
   ("c05vappendlen", laneVAppendLen),
